@@ -39,3 +39,10 @@ Check (C19_nonvacuous :
   from_trait default_ro (fun _ => true) true dec_to_f64 SrcSlice inp = PErr (XErr (ESyntax ExpectedSomeIdent 2 5)) /\
   line_lens (bytes_in inp) 0 = [2; 5] /\
   from_trait default_ro (fun _ => true) true dec_to_f64 SrcIo (bytes_events (s2b "(a")) = PErr (XErr (ESyntax EofWhileParsingList 1 2))).
+
+Check (C19_truncation_is_eof_refuted :
+  exists (text prefix : bytes) c l cl,
+    (exists rest, rest <> [] /\ text = prefix ++ rest) /\
+    (exists v, from_trait default_ro (fun _ => true) true dec_to_f64 SrcSlice (bytes_events text) = POk v) /\
+    from_trait default_ro (fun _ => true) true dec_to_f64 SrcSlice (bytes_events prefix) = PErr (XErr (ESyntax c l cl)) /\
+    classify_code c = CatSyntax).
